@@ -78,11 +78,14 @@ def run(tier):
     bad = sx.validate(chk, "Trace_Sbx", tpath, events, lines, "vm")
     sx.drift(chk, expected, events)
     # no-op backend: lifecycle/registration part (identity translation hides the registry)
-    nlines = [("reset %s 64 0" % l.split()[1]) if l.startswith("reset") else l for l in lines]
+    ncap = sx.capacity(drv["sbx_noop"])
+    nlines = [("reset %s %d 0" % (l.split()[1], ncap)) if l.startswith("reset") else l for l in lines]
     nevents, ntpath = sx.replay(drv["sbx_noop"], wd, "noop", nlines)
     bad += sx.validate(chk, "Trace_Sbx", ntpath, nevents, nlines, "noop")
     # dylib backend: the same script; incarnations are created from two different libraries
     ddrv, dlibs = sx.dylib_driver()
+    dcap = sx.capacity(ddrv, dlibs)
+    nlines = [("reset %s %d 0" % (l.split()[1], dcap)) if l.startswith("reset") else l for l in lines]
     devents, dtpath = sx.replay(ddrv, wd, "dylib", nlines, dlibs)
     bad += sx.validate(chk, "Trace_Sbx", dtpath, devents, nlines, "dylib")
     nevents = nevents + devents
